@@ -108,6 +108,10 @@ pub struct Legacy {
     /// cw20 tokens (index 0..N_CW20) that are on the allow list of the legacy contract
     pub listed: Vec<bool>,
     pub migrate_default_gas: Option<u64>,
+    /// the first cw20 token with a channel entry cannot be reached (its Balance query fails) while the
+    /// migration runs: the migration then has to fail as a whole (nothing changes), it must not drop anything
+    #[serde(default)]
+    pub token_query_fails: bool,
 }
 
 #[derive(Clone, Debug, Serialize, Deserialize, PartialEq)]
@@ -174,7 +178,11 @@ fn op(prop: &str, malicious: bool) -> BoxedStrategy<Op> {
     let recv = (0u8..3, 0u8..N_TOK as u8, proptest::option::weighted(0.8, any::<u16>()), form(malicious), recv_amt(malicious), prop_oneof![12 => 0u8..N_USERS as u8, 1 => Just(N_USERS as u8)], proptest::bool::weighted(0.2), proptest::bool::weighted(0.2))
         .prop_map(|(ch, tok, live, form, amt, receiver, payout_fails, memo)| Op::Recv { ch, tok, live, form, amt, receiver, payout_fails, memo })
         .boxed();
-    let raw = (0u8..3, prop_oneof![proptest::collection::vec(any::<u8>(), 0..40), "[{}\":,a-z0-9]{0,60}".prop_map(|s| s.into_bytes())]).prop_map(|(ch, bytes)| Op::RecvRaw { ch, bytes }).boxed();
+    // third arm: a well-formed packet whose denom trace names an odd, long, non-ASCII channel (error texts echo it)
+    let odd = (0usize..6, 20usize..70, 0u8..N_USERS as u8, prop_oneof![Just("uatom"), Just("ujuno")]).prop_map(|(pad, n, rcv, base)| {
+        format!(r#"{{"amount":"1","denom":"transfer/{}{}/{base}","receiver":"{}","sender":"remote"}}"#, "x".repeat(pad), "\u{20ac}".repeat(n), user_addr(rcv as usize)).into_bytes()
+    });
+    let raw = (0u8..3, prop_oneof![3 => proptest::collection::vec(any::<u8>(), 0..40), 3 => "[{}\":,a-z0-9]{0,60}".prop_map(|s| s.into_bytes()), 2 => odd]).prop_map(|(ch, bytes)| Op::RecvRaw { ch, bytes }).boxed();
     let ack = (any::<u16>(), proptest::bool::weighted(0.6), proptest::bool::weighted(0.25)).prop_map(|(pkt, ok, refund_fails)| Op::Ack { pkt, ok, refund_fails }).boxed();
     let timeout = (any::<u16>(), proptest::bool::weighted(0.25)).prop_map(|(pkt, refund_fails)| Op::Timeout { pkt, refund_fails }).boxed();
     let allow = (who(), 0u8..N_CW20 as u8, gas()).prop_map(|(by, tok, gas)| Op::Allow { by, tok, gas }).boxed();
@@ -189,9 +197,19 @@ fn op(prop: &str, malicious: bool) -> BoxedStrategy<Op> {
     }
 }
 
+/// address of user i as the chain's api derives it (the same in every case)
+fn user_addr(i: usize) -> String {
+    static ADDRS: std::sync::OnceLock<Vec<String>> = std::sync::OnceLock::new();
+    ADDRS.get_or_init(|| {
+        let api = cosmwasm_std::testing::MockApi::default();
+        (0..N_USERS).map(|k| api.addr_make(&format!("user{k}")).to_string()).collect()
+    })[i % N_USERS]
+        .clone()
+}
+
 fn legacy() -> BoxedStrategy<Legacy> {
-    (0u8..3, proptest::collection::vec((0u8..N_TOK as u8, prop_oneof![2 => Just(0u64), 5 => 0u64..3000], proptest::collection::vec(1u32..500, 0..3)), 1..4), proptest::collection::vec(any::<bool>(), N_CW20), gas())
-        .prop_map(|(version, tokens, listed, migrate_default_gas)| Legacy { version, tokens, listed, migrate_default_gas })
+    (0u8..3, proptest::collection::vec((0u8..N_TOK as u8, prop_oneof![2 => Just(0u64), 5 => 0u64..3000], proptest::collection::vec(1u32..500, 0..3)), 1..4), proptest::collection::vec(any::<bool>(), N_CW20), gas(), proptest::bool::weighted(0.12))
+        .prop_map(|(version, tokens, listed, migrate_default_gas, token_query_fails)| Legacy { version, tokens, listed, migrate_default_gas, token_query_fails })
         .boxed()
 }
 
@@ -206,10 +224,12 @@ pub fn case_strategy(prop: &str, tier: Tier) -> BoxedStrategy<Case> {
         "C12" => Just(false).boxed(),
         _ => any::<bool>().boxed(),
     };
-    let leg = if prop == "C12" { proptest::option::weighted(0.3, legacy()).boxed() } else { Just(None).boxed() };
+    // the upgrade arm: a third of the C12 cases; the other two properties must survive an upgrade as well
+    let leg = proptest::option::weighted(if prop == "C12" { 0.3 } else { 0.1 }, legacy()).boxed();
     (malicious, leg)
         .prop_flat_map(move |(mal, leg)| {
-            let channels = if leg.is_some() { Just(1u8).boxed() } else { (1u8..=3).boxed() };
+            // the <= 0.13.0 migration supports one channel; with more it has to refuse (and change nothing)
+            let channels = if leg.is_some() { prop_oneof![6 => Just(1u8), 1 => 2u8..=3].boxed() } else { (1u8..=3).boxed() };
             // most tokens allowed so that transfers are live; C18 starts from sparser lists
             let allow = proptest::collection::vec((0u8..N_CW20 as u8, gas()), if p == "C18" { 0..3 } else { 1..4 });
             (Just(mal), Just(leg), channels, allow, gas(), proptest::collection::vec(op(&p, mal), 0..max_ops))
@@ -516,13 +536,14 @@ pub fn run_case(prop: &str, case: &Case, ctx: &mut CaseCtx) -> Result<(), Violat
     // ---- legacy arm: fabricate the old storage image, then migrate
     if let Some(l) = &case.legacy {
         let c = w.ics20.clone();
-        let mut booked: BTreeMap<usize, (u128, Vec<u32>)> = BTreeMap::new();
-        for (t, acked, inflight) in &l.tokens {
-            let e = booked.entry(*t as usize % N_TOK).or_insert((0, vec![]));
+        // entry k of the image lives on channel k % n_ch
+        let mut booked: BTreeMap<(usize, usize), (u128, Vec<u32>)> = BTreeMap::new();
+        for (k, (t, acked, inflight)) in l.tokens.iter().enumerate() {
+            let e = booked.entry((k % n_ch, *t as usize % N_TOK)).or_insert((0, vec![]));
             e.0 += *acked as u128;
             e.1.extend(inflight.iter().cloned());
         }
-        for (tok, (acked, inflight)) in &booked {
+        for ((ch, tok), (acked, inflight)) in &booked {
             let denom = w.local_denom(*tok);
             let total: u128 = *acked + inflight.iter().map(|x| *x as u128).sum::<u128>();
             // the old contract holds everything it was sent
@@ -534,23 +555,22 @@ pub fn run_case(prop: &str, case: &Case, ctx: &mut CaseCtx) -> Result<(), Violat
                 }
             }
             // v2 semantics: only acknowledged sends are booked
-            let key = L_CHANNEL_STATE.key((&chan_id(0), &denom)).to_vec();
+            let key = L_CHANNEL_STATE.key((&chan_id(*ch), &denom)).to_vec();
             let val = to_json_vec(&LegacyChannelState { outstanding: Uint128::new(*acked), total_sent: Uint128::new(*acked) }).unwrap();
             try_sudo(&mut w.app, &c, &Shim::RawSet { key: key.into(), value: val.into() }).expect("rawset");
-            sent[0][*tok] += *acked;
-            escrowed[0][*tok] += *acked;
-            remote_held[0][*tok] += *acked;
+            sent[*ch][*tok] += *acked;
+            escrowed[*ch][*tok] += *acked;
+            remote_held[*ch][*tok] += *acked;
             for (k, a) in inflight.iter().enumerate() {
                 let sender = w.users[k % N_USERS].to_string();
                 let data = to_json_binary(&WirePacket { amount: Uint128::new(*a as u128), denom: denom.clone(), receiver: "remote-old".into(), sender: sender.clone(), memo: None }).unwrap();
                 seq += 1;
-                pkts.push(Pkt { ch: 0, tok: *tok, amount: *a as u128, sender, data, timeout: IbcTimeout::with_timestamp(w.app.block_info().time.plus_seconds(5000)), state: PState::InFlight, seq });
+                pkts.push(Pkt { ch: *ch, tok: *tok, amount: *a as u128, sender, data, timeout: IbcTimeout::with_timestamp(w.app.block_info().time.plus_seconds(5000)), state: PState::InFlight, seq });
                 // after the migration in-flight sends count as sent
-                sent[0][*tok] += *a as u128;
-                escrowed[0][*tok] += *a as u128;
+                sent[*ch][*tok] += *a as u128;
+                escrowed[*ch][*tok] += *a as u128;
             }
         }
-        // cw20 tokens outside the legacy allow list: remove the entries the fresh instantiate created (none: only listed ones were created)
         let _ = &L_ALLOW_LIST;
         let version = match l.version % 3 {
             0 => "0.11.1",
@@ -564,11 +584,38 @@ pub fn run_case(prop: &str, case: &Case, ctx: &mut CaseCtx) -> Result<(), Violat
         }
         let val = to_json_vec(&LegacyVersion { contract: "crates.io:cw20-ics20".into(), version: version.into() }).unwrap();
         try_sudo(&mut w.app, &c, &Shim::RawSet { key: b"contract_info".to_vec().into(), value: val.into() }).expect("rawset");
+        // fault: the first cw20 token with a channel entry cannot be reached while the migration runs
+        let unreachable: Option<usize> = if l.token_query_fails { booked.keys().map(|(_, t)| *t).find(|t| *t >= N_NATIVE) } else { None };
+        if let Some(t) = unreachable {
+            let _ = try_sudo(&mut w.app, &w.cw20[t - N_NATIVE].clone(), &FlakyCtl::SetQuery { on: true });
+        }
         let r = try_migrate(&mut w.app, &w.wasm_admin.clone(), &c, &MigrateMsg { default_gas_limit: l.migrate_default_gas }, w.code);
+        if let Some(t) = unreachable {
+            let _ = try_sudo(&mut w.app, &w.cw20[t - N_NATIVE].clone(), &FlakyCtl::SetQuery { on: false });
+        }
         if let Err(e) = r {
+            // the <= 0.13.0 migration refuses more than one channel and cannot complete without the tokens'
+            // balances; a refused migration changes nothing and the old code keeps running: nothing to judge
+            if n_ch >= 2 || unreachable.is_some() {
+                ctx.count("legacy_migrate_refused");
+                return Ok(());
+            }
             return Err(v(prop, "legacy-migrate-failed", format!("migrating a fabricated {version} storage image failed: {e}")));
         }
         ctx.flag("legacy");
+        // an upgrade is not a governance call: every token allowed before is still allowed, no limit lowered
+        let after = w.observe().map_err(qerr)?;
+        for (t, g) in &allow_init {
+            let key = w.cw20[*t].to_string();
+            match after.allowed.get(&key) {
+                None => return Err(v(prop, "token-removed", format!("after migrating a {version} image: allowed token {key} is no longer on the allow list"))),
+                Some(new) => {
+                    if !gas_le(*g, *new) {
+                        return Err(v(prop, "gas-limit-lowered", format!("after migrating a {version} image: gas limit of {key} went {:?} -> {:?}", g, new)));
+                    }
+                }
+            }
+        }
     }
 
     let mut pre = w.observe().map_err(qerr)?;
@@ -1303,7 +1350,7 @@ pub fn decode_case(prop: &str, u: &mut arbitrary::Unstructured) -> Case {
         "C12" => false,
         _ => arb_bool(u, 1, 2),
     };
-    let legacy = if prop == "C12" && arb_bool(u, 3, 10) {
+    let legacy = if arb_bool(u, if prop == "C12" { 3 } else { 1 }, 10) {
         let n = 1 + arb_below(u, 3);
         let tokens = (0..n)
             .map(|_| {
@@ -1311,11 +1358,11 @@ pub fn decode_case(prop: &str, u: &mut arbitrary::Unstructured) -> Case {
                 (arb_below(u, N_TOK) as u8, if arb_bool(u, 1, 3) { 0 } else { u.arbitrary::<u16>().unwrap_or(0) as u64 % 3000 }, (0..k).map(|_| 1 + u.arbitrary::<u16>().unwrap_or(0) as u32 % 500).collect())
             })
             .collect();
-        Some(Legacy { version: arb_below(u, 3) as u8, tokens, listed: (0..N_CW20).map(|_| arb_bool(u, 1, 2)).collect(), migrate_default_gas: d_gas(u) })
+        Some(Legacy { version: arb_below(u, 3) as u8, tokens, listed: (0..N_CW20).map(|_| arb_bool(u, 1, 2)).collect(), migrate_default_gas: d_gas(u), token_query_fails: arb_bool(u, 1, 8) })
     } else {
         None
     };
-    let channels = if legacy.is_some() { 1 } else { 1 + arb_below(u, 3) as u8 };
+    let channels = if legacy.is_some() && !arb_bool(u, 1, 7) { 1 } else { 1 + arb_below(u, 3) as u8 };
     let n_allow = arb_below(u, 4);
     let allow = (0..n_allow).map(|_| (arb_below(u, N_CW20) as u8, d_gas(u))).collect();
     let default_gas = d_gas(u);
